@@ -154,8 +154,10 @@ func Run(p Params, scratch string) (res Result) {
 	res.Probes = s.Probes
 	res.Aborted = s.Aborted
 	res.TraceLog = s.TraceLog
-	res.PlanTape = plan.Used()
-	res.SchedTape = sched.Used()
+	if res.PlanTape == nil && res.SchedTape == nil {
+		res.PlanTape = plan.Used()
+		res.SchedTape = sched.Used()
+	}
 	res.SimMs = float64(s.SimTime) / 1e6
 	res.WallMs = float64(RealNow()-t0) / 1e6
 	for k := range c.cells {
